@@ -81,6 +81,11 @@ package mapping
 //@   ensures [struct-requiredness-asked-only-when-not-optional] calls(structValueRequired) >= 1 ==> calls(optional) == 1 && !ret(optional) && before(optional, structValueRequired)
 //@   ensures [required-primitive-missing] !ret(getDefault, 1) && calls(newInitError) == 1 ==> result == ret(newInitError) && !ret(optional)
 //@   ensures [no-default-no-set] !ret(getDefault, 1) ==> calls(setValue) + calls(fillSliceWithDefault) + calls(fillDurationValue) == 0
+// a required field that is absent makes it fail: everything that is not a list or a nested struct (whose own
+// members decide) - a map included - is an error when it has neither a value, a default nor `optional`
+//@   observe FieldKind = ret(Kind, 0, 1)
+//@   replay mapping_required_absent
+//@   ensures [required-and-absent-is-an-error] !ret(getDefault, 1) && calls(optional) == 1 && !ret(optional) && ret(Kind, 0, 1) != 25 && ret(Kind, 0, 1) != 23 && ret(Kind, 0, 1) != 17 ==> calls(newInitError) == 1 && result == ret(newInitError) && calls(processFieldNotFromString) == 0
 
 // fillSlice: the field always receives a slice made in this call, never the source value itself
 // (so a cached default can not be shared between unmarshals).
